@@ -200,6 +200,8 @@ static int cookie_verify_cb(SSL *, const unsigned char *cookie, unsigned int len
     return 1;
 }
 
+static unsigned int dtls_timer_cb(SSL *, unsigned int) { return 3600u * 1000000u; }
+
 OsslCtx::OsslCtx() : p(new Impl) {}
 OsslCtx::~OsslCtx() { if (p) { if (p->ctx) SSL_CTX_free(p->ctx); delete p; } }
 const OsslCtxConfig &OsslCtx::config() const { return p->cfg; }
@@ -319,6 +321,7 @@ OsslConn::OsslConn(OsslCtx &ctx, OsslSessionPtr resume) : p(new Impl) {
         p->rbio = BIO_new(dq_method()); BIO_set_data(p->rbio, &p->in_q);
         p->wbio = BIO_new(dq_method()); BIO_set_data(p->wbio, &p->out_q);
         SSL_set_mtu(p->ssl, cfg.dtls_mtu ? cfg.dtls_mtu : 1400);
+        DTLS_set_timer_cb(p->ssl, dtls_timer_cb); // the link is loss-free: never let the real-time retransmission timer fire
     } else {
         p->rbio = BIO_new(BIO_s_mem()); p->wbio = BIO_new(BIO_s_mem());
         BIO_set_mem_eof_return(p->rbio, -1); BIO_set_mem_eof_return(p->wbio, -1);
